@@ -305,6 +305,12 @@ pub fn generate(g: &mut Gen, thorough: bool) {
             .collect();
         case(g, "default", def, "F", "geo", 5e-6, &pts, "tmerc-across-the-antimeridian", true);
     }
+    // the pole a cone points to, after other points of the same set (nothing of a point stays behind for the next)
+    for (def, pole) in [("lcc lat_1=33 lat_2=45 lon_0=10", 1.0), ("lcc lat_1=57 lat_0=57 lon_0=12 k_0=0.9996", 1.0), ("lcc lat_1=-33 lat_2=-45 lon_0=20 ellps=intl", -1.0), ("laea lat_0=90 lon_0=10", 1.0), ("laea lat_0=-90", -1.0)] {
+        let hp = std::f64::consts::FRAC_PI_2 * pole;
+        let pts = vec![[0.3, 0.8 * pole, 0.0, 2000.0], [0.1, hp, 5.0, 2000.0], [0.2, 0.95 * pole, 0.0, 2000.0], [-2.0, hp, 0.0, 2000.0], [0.25, 0.6 * pole, 0.0, 2000.0], [0.25, hp, 0.0, 2000.0]];
+        case(g, "default", def, "F", "geo", 5e-6, &pts, "pole-after-other-points", true);
+    }
     // the `inv` modifier exchanges the directions of every operator (one definition per operator, every parameter given)
     for def in super::c09::EVERY_PARAMETER {
         if def.contains("grids") {
